@@ -983,7 +983,9 @@ theorem declareClassicalHelper_ok (sym : SymbolIdResult) (v : Option TExpr) (c c
     simp only at h
     split at h
     · cases sym with
-      | error e => simp [M.map_ok] at h
+      | error e =>
+        simp only [M.pure_bind_ok, M.pure_ok, Prod.mk.injEq] at h
+        exact ⟨h.1, by rw [h.2]⟩
       | ok id =>
         simp only [insertConstValue, M.modify_bind_ok, M.pure_ok, Prod.mk.injEq] at h
         exact ⟨h.1, by rw [h.2]⟩
